@@ -1114,3 +1114,13 @@ package types
 //@   modifies *
 //@   ensures [nilRejected] v == nil ==> err != nil
 //@   ensures [everyLegalPowerAccepted] v != nil && 0 <= v.VotingPower && result(IsHexAddress) ==> err == nil
+
+// ---------------------------------------------------------------- C01/C14: what the validator-set hash covers
+// The bytes hashed for a validator are its address AND its voting power: two sets that differ in a power
+// have different hashes (the hash is in every header, and it is the key of the set's stored record).
+//@ func (v *Validator) Bytes() (r []byte)
+//@   for C01 C14 C02
+//@   requires v != nil
+//@   modifies *
+//@   atstore SimpleValidator.VotingPower requires [powerIsPartOfTheSetHash] new == v.VotingPower
+//@   atstore SimpleValidator.Address requires [addressIsPartOfTheSetHash] len(new) == 20 && content(new) == content(v.Address)
